@@ -64,13 +64,14 @@ class Spec(PropSpec):
         cases += [F.gen_dup(ctx.rng) for _ in range(n // 8)]
         cases += [F.gen_cache(ctx.rng) for _ in range(n // 5)]
         cases += [F.gen_capacity(ctx.rng) for _ in range(n // 6)]
+        cases += [F.gen_rings(ctx.rng) for _ in range(n // 5)]
         ex = F.exhaustive_small()
         if ctx.tier == "quick":
             ex = ctx.rng.sample(ex, min(len(ex), 120))
         exc = F.exhaustive_cache()
         if ctx.tier == "quick":
             exc = ctx.rng.sample(exc, min(len(exc), 30))
-        return ex + exc + cases
+        return ex + exc + F.exhaustive_rings() + cases
 
     @staticmethod
     def _direct(case, obs):
